@@ -49,6 +49,8 @@ type corpus struct {
 		P      [3]float64 `json:"p"`
 	} `json:"boltnut"`
 	Histories [][]genCall `json:"histories"`
+	// conversion histories on ThreadParameters values (convhist.go)
+	Conversions [][]convOp `json:"conversions"`
 	Taper     []struct {
 		Thread string  `json:"thread"`
 		Length float64 `json:"length"`
@@ -1066,6 +1068,71 @@ func check(c *Ctx, r *Report) error {
 		history("random", calls)
 		r.Sample(map[string]interface{}{"kind": "history", "calls": len(calls), "first": calls[0], "database_entries_changed": len(drifted)})
 	}
+	// ------------------------------------------------------------ 9. conversion histories (convhist.go)
+	// lookup / new / copy by value / ToMillimetre / edit of the RETURNED or of the converted struct, interleaved over
+	// several entries; every live value against a value model after every step, conversions against a brand-new
+	// struct converted once and against the snapshot of the fresh database.
+	{
+		dbPtr := map[*sdf.ThreadParameters]bool{}
+		var inchN, mmN []string
+		for _, n := range names {
+			t, err := sdf.ThreadLookup(n)
+			if err != nil {
+				continue
+			}
+			dbPtr[t] = true
+			if u, ok := snap[n]; ok {
+				if u.Units == "mm" {
+					mmN = append(mmN, n)
+				} else {
+					inchN = append(inchN, n)
+				}
+			}
+		}
+		sort.Strings(inchN)
+		sort.Strings(mmN)
+		if nm := TierN(c.Tier, 12, len(mmN), 30); nm < len(mmN) {
+			var sel []string
+			for _, i := range rng.Perm(len(mmN))[:nm] {
+				sel = append(sel, mmN[i])
+			}
+			sort.Strings(sel)
+			mmN = sel
+		}
+		nviol := 0
+		for hid, h := range cp.Conversions {
+			if runConvHistory(r, "corpus", hid, h, snap, dbPtr) {
+				nviol++
+			}
+		}
+		hs := convHistories(rng, inchN, mmN, snap, TierN(c.Tier, 300, 5000, 1500))
+		// a history that failed may have left state behind in the entries it looked up (that is what such a defect
+		// does): later histories over the same entries would fail with an input that does not reproduce on its own
+		poisoned := map[string]bool{}
+		perStratum := map[string]int{} // one report per kind of history
+		for hid, h := range hs {
+			if nviol >= 6 {
+				break // one defect fails many histories: a few reports are enough
+			}
+			skip := false
+			for _, op := range h.ops {
+				skip = skip || (op.Op == "lookup" && poisoned[op.Name])
+			}
+			if skip || perStratum[h.stratum] >= 1 {
+				continue
+			}
+			if runConvHistory(r, h.stratum, hid, h.ops, snap, dbPtr) {
+				nviol++
+				perStratum[h.stratum]++
+				for _, op := range h.ops {
+					if op.Op == "lookup" {
+						poisoned[op.Name] = true
+					}
+				}
+			}
+		}
+		r.Coverage["conversion_histories"] = len(hs) + len(cp.Conversions)
+	}
 	// the database after the histories, through the same correspondence as the fresh one
 	cda := &Cases{Kind: "dbafter", Imports: imp, Type: "cased", Fn: "mismatchesd", InfoFn: "uncovered", PerShard: 1000}
 	for _, n := range names {
@@ -1101,7 +1168,7 @@ func check(c *Ctx, r *Report) error {
 	sort.Strings(sn)
 	r.Coverage["database_rows"] = len(rows)
 	r.Coverage["database_keys"] = len(names)
-	r.Rule = "every database key (ThreadLookup, ToMillimetre) bit-exact against the row regenerated from the source and against the designation (M<d>x<P> parsed; ASME B1.1 / B1.20.1 reference tables); SawTooth on dyadic / multiple-of-period / next-to-the-jump / random arguments; the helical mapping observed through a recording probe profile (on the axis, theta = +-pi, end planes, dyadic, far outside, thread zone; starts 0, +-1..+-4; straight and NPT-tapered; invalid constructor arguments); ISOThread profile and full Screw3D values near flanks / crests / roots / strip edges against the Gallina model; helix invariance, z-periodicity, handedness on long screws; mating of external radius-tol against the nut material of internal radius+tol for every row x tolerances {0, 1%, 25%, 100% of the pitch}; obj.Bolt against obj.Nut placed whole pitches along the thread; VERTEX LEVELS (levels.go): for every row x tolerance, 3D points whose distance from the axis (tapered: rho + z tan taper) is BIT FOR BIT the ordinate of a vertex of the external or the internal profile polygon (apex = BoundingBox().Max.Y, crest flat, fillet facets, bore; the vertex list rebuilt through the public Polygon API and cross-checked with the quadtree pieces) or of a cut / box centre of its quadtree, and one ulp either side - on the coordinate axes (theta = 0, -0, +-pi/2, pi, -pi), in generic directions (x, y searched so that sqrt(x*x+y*y) rounds to the value), at heights that put the profile abscissa on a vertex abscissa, exactness verified through the recording probe - through the mating oracle and through obj.Bolt / obj.Nut; every mating point additionally through the SIGN oracle (sign of each screw = exact rational crossing number of the recorded profile-plane point, guard 1e-9*(radius+pitch) around the outline); the 2D profiles themselves on the sparse grid (vertex ordinates +-1 ulp, cut ordinates) x (vertex abscissae, midpoints, cuts, beyond both ends) and transposed, sign by the exact crossing number, magnitude by the distance to the segments; HISTORIES: interleaved calls of every obj generator that looks a thread up (ThreadedCylinder, Nut, Bolt; hex/knurl; metric, unified, pipe designations; tolerances > 0 and 0; several rounds), after every call every database key bit-identical (entry, hex sizes, ToMillimetre, ToMillimetre twice) to the snapshot of the fresh database, and the database after the histories through the db correspondence again. non-trivial = every case; distinct by exact input bits."
+	r.Rule = "every database key (ThreadLookup, ToMillimetre) bit-exact against the row regenerated from the source and against the designation (M<d>x<P> parsed; ASME B1.1 / B1.20.1 reference tables); SawTooth on dyadic / multiple-of-period / next-to-the-jump / random arguments; the helical mapping observed through a recording probe profile (on the axis, theta = +-pi, end planes, dyadic, far outside, thread zone; starts 0, +-1..+-4; straight and NPT-tapered; invalid constructor arguments); ISOThread profile and full Screw3D values near flanks / crests / roots / strip edges against the Gallina model; helix invariance, z-periodicity, handedness on long screws; mating of external radius-tol against the nut material of internal radius+tol for every row x tolerances {0, 1%, 25%, 100% of the pitch}; obj.Bolt against obj.Nut placed whole pitches along the thread; VERTEX LEVELS (levels.go): for every row x tolerance, 3D points whose distance from the axis (tapered: rho + z tan taper) is BIT FOR BIT the ordinate of a vertex of the external or the internal profile polygon (apex = BoundingBox().Max.Y, crest flat, fillet facets, bore; the vertex list rebuilt through the public Polygon API and cross-checked with the quadtree pieces) or of a cut / box centre of its quadtree, and one ulp either side - on the coordinate axes (theta = 0, -0, +-pi/2, pi, -pi), in generic directions (x, y searched so that sqrt(x*x+y*y) rounds to the value), at heights that put the profile abscissa on a vertex abscissa, exactness verified through the recording probe - through the mating oracle and through obj.Bolt / obj.Nut; every mating point additionally through the SIGN oracle (sign of each screw = exact rational crossing number of the recorded profile-plane point, guard 1e-9*(radius+pitch) around the outline); the 2D profiles themselves on the sparse grid (vertex ordinates +-1 ulp, cut ordinates) x (vertex abscissae, midpoints, cuts, beyond both ends) and transposed, sign by the exact crossing number, magnitude by the distance to the segments; HISTORIES: interleaved calls of every obj generator that looks a thread up (ThreadedCylinder, Nut, Bolt; hex/knurl; metric, unified, pipe designations; tolerances > 0 and 0; several rounds), after every call every database key bit-identical (entry, hex sizes, ToMillimetre, ToMillimetre twice) to the snapshot of the fresh database, and the database after the histories through the db correspondence again; CONVERSION HISTORIES (convhist.go): programs of lookup / new struct / copy by value / ToMillimetre / edit of a field (radius, pitch, taper, hex, name, units) of the RETURNED struct, of a copy or of a user struct, over one to three entries (every inch entry, a sample of metric ones, user-defined threads, structs sharing a name) - fixed templates (adjust the returned struct and convert the original and the returned again; copy after a conversion, edit, convert; edit in place between conversions; alternate two entries) and random programs; after every step every live value bit for bit against a value model with no sharing except a millimetre receiver returned as it is, every conversion against lengths * 25.4 and against a brand-new struct with the same exported fields converted once, every database entry looked up against the fresh snapshot. non-trivial = every case; distinct by exact input bits."
 	r.Trusted = append(r.Trusted,
 		"translator harness/threadgen (go/parser + go/constant, symbolic execution of loop-free Go: helpers followed, locals / keyed literals / named constants / table-driven loops normalised away): rows and the Add/ToMillimetre bodies of sdf/screw.go -> coq/Generated/Threads.v; SawTooth, DtoR, Screw3D, ScrewSDF3.Evaluate, ISOThread -> coq/Generated/ThreadExpr.v, proved equal to the hand model for all real arguments (Sdf/ScrewEq.v: by conversion, else by real arithmetic); the construction of obj.Nut / obj.Bolt -> coq/Generated/ObjThread.v (calls returning (shape, error) taken to succeed) - all on every run",
 		"hand model coq/Sdf/Screw.v: SawTooth, Screw3D, ScrewSDF3.Evaluate, ISOThread vertex list are the translated source (theorems) AND run against the implementation at FOps (mapping bit-exact); Polygon smoothing (sdf/poly.go), the exhaustive polygon distance (sdf/mesh2.go) and pvn/pvs (Polygon.Add / Smooth) stay tied by differential execution only: profile/screw values within 1e-10*(radius+pitch) because Polygon2D walks a quadtree of clipped segments",
